@@ -18,6 +18,8 @@ func main() {
 		os.Exit(2)
 	}
 	switch os.Args[1] {
+	case "cover":
+		cmdVerify(append([]string{"-cover"}, os.Args[2:]...))
 	case "pair":
 		cmdVerify(append([]string{"-pair"}, os.Args[2:]...))
 	case "verify":
@@ -202,12 +204,14 @@ func cmdVerify(args []string) {
 	agree := fs.Bool("agree", false, "run all solvers")
 	verbose := fs.Bool("v", false, "print every obligation")
 	pair := fs.Bool("pair", false, "two-run (equiv) lemmas instead of contracts")
+	cover := fs.Bool("cover", false, "vacuity audit: report ensures implications whose antecedent is unreachable at exit")
 	fs.Parse(args)
 	e, err := LoadEngine(envOr("GOVC_REPO", "/repo"), envOr("GOVC_VERIF", "/verif"))
 	if err != nil {
 		fmt.Fprintln(os.Stderr, err)
 		os.Exit(2)
 	}
+	e.covers = *cover
 	var re *regexp.Regexp
 	if *fnPat != "" {
 		re = regexp.MustCompile(*fnPat)
@@ -255,6 +259,13 @@ func cmdVerify(args []string) {
 		fmt.Printf("%-60s %d/%d %s %.2fs smoke=%s\n", vc.key, ok, len(vc.obls), status, r.Secs, r.Smoke)
 		for _, u := range vc.unsup {
 			fmt.Printf("    unsupported: %s\n", u)
+		}
+		if *cover && len(r.Runs) > 0 {
+			for i, d := range vc.covers {
+				if r.Runs[0].covers[i] == "unsat" {
+					fmt.Printf("    VACUOUS  %s#ensures@%s\n", vc.key, d)
+				}
+			}
 		}
 		for _, d := range r.Disagree {
 			fmt.Printf("    DISAGREE: %s\n", d)
